@@ -10,6 +10,15 @@ import sys
 from pathlib import Path
 
 
+def no_null(x):
+    """JSON handed to TLC never carries null: keys with a None value are dropped"""
+    if isinstance(x, dict):
+        return {k: no_null(v) for k, v in x.items() if v is not None}
+    if isinstance(x, (list, tuple)):
+        return [no_null(v) for v in x]
+    return x
+
+
 def main():
     driver_name, out_prefix, si, sn, shard_size, params = sys.argv[1:7]
     si, sn, shard_size = int(si), int(sn), int(shard_size)
@@ -38,7 +47,7 @@ def main():
         for rec in recs:
             if rec is None:
                 continue
-            rec["call"] = call
+            rec["call"] = no_null(call)
             n += 1
             # ids are unique across drivers, back ends and slices
             rec["id"] = f"{tag}.{si}.{n}"
